@@ -323,28 +323,28 @@ CORPUS = [
 # the check
 # ----------------------------------------------------------------------------
 
-CASE_TMPL = """{header}From Cohdl Require Import Equiv.VhdlTS Models.Coro.
+CASE_TMPL = """{header}From Cohdl Require Import Equiv.VhdlTS Vhdl.DeadVars Equiv.StoreTS Models.Coro.
 Definition d : design := {design}.
 Definition p : stmt := {prog}.
 Definition alphabet : list (list value) := product [{cands}].
 Definition assume (_ : rstate) (_ : list value) := true.
-Definition inits := [(power_up d, rinit)].
 {count}Theorem case_ok : forall ins, admissible (ref_step p) alphabet assume rinit ins ->
-  traceA (vstep d false) (power_up d) ins = traceB (ref_step p) rinit ins.
+  traceA (sstep d false) (power_up_s d) ins = traceB (ref_step p) rinit ins.
 Proof.
-  apply (vcheck_sound d false (ref_step p) rstate_eqb rstate_eqb_ok rhash alphabet assume 400000 inits);
-    [vm_cast_no_check (eq_refl true) | left; reflexivity].
+  apply (vcheck_s_sound d false (ref_step p) rstate_eqb rstate_eqb_ok rhash alphabet assume 400000 rinit);
+    vm_cast_no_check (eq_refl true).
 Qed.
 """
 
 
-DIAG = """Definition verdict := Eval vm_compute in (vcheck_bfs d false (ref_step p) rstate_eqb rhash alphabet assume 400000 inits).
+DIAG = """Eval vm_compute in (conc_all_ok (auto_Ts d) d).
+Definition verdict := Eval vm_compute in (vcheck_s_bfs d false (ref_step p) rstate_eqb rhash alphabet assume 400000 rinit).
 Eval vm_compute in verdict.
 Eval vm_compute in (match verdict with
-  | VCex path => Some (traceA (vstep d false) (power_up d) path, traceB (ref_step p) rinit path)
+  | VCex path => Some (traceA (sstep d false) (power_up_s d) path, traceB (ref_step p) rinit path)
   | _ => None end).
 """
-COUNT = "Eval vm_compute in (vcheck d false (ref_step p) rstate_eqb rhash alphabet assume 400000 inits).\n"
+COUNT = "Eval vm_compute in (vcheck_s d false (ref_step p) rstate_eqb rhash alphabet assume 400000 rinit).\n"
 
 
 def diagnose(path):
